@@ -227,31 +227,42 @@ def _weights_ok(p, weights):
 
 # ---------------------------------------------------------------------------------------------
 def replay(case):
+    """Real build with numpy.random mocked by the model's draws.  Reproduced iff the sample is invalid
+    OR differs from the documented generative process run on the same draws (count = |trunc(N(avg_nb,
+    std_nb))| (>= 1 while empty), start = previous end + N(avg_gap, std_gap), duration = |N(avg_dur,
+    std_dur)| redrawn while <= precision, label = choice(categories, p=weights)) OR a draw was
+    requested with other parameters than the documented ones."""
     import numpy as np
     import pygamma_agreement as pa
     import pyannote.core.segment as pseg
     from pygamma_agreement.sampler import StatisticalContinuumSampler
     from unittest import mock
     F = lambda x: float(Fraction(x))     # noqa: E731
+    PREC = pseg.SEGMENT_PRECISION
     draws = list(case["draws"])
+    calls = []
 
     def normal(mu=0.0, sd=1.0, size=None):
         while draws and draws[0][0] != "normal":
             draws.pop(0)
         if not draws:
             raise RuntimeError("replay ran out of recorded normal draws")
-        return F(draws.pop(0)[1])
+        v = F(draws.pop(0)[1])
+        calls.append(("normal", float(mu), float(sd), v))
+        return v
 
     def choice(seq, size=None, replace=True, p=None):
         if not draws or draws[0][0] != "choice":
             raise RuntimeError("replay expected a choice draw")
-        return list(seq)[draws.pop(0)[1]]
+        i_ = draws.pop(0)[1]
+        calls.append(("choice", [str(x) for x in seq], None if p is None else [float(x) for x in p], str(list(seq)[i_])))
+        return list(seq)[i_]
     s = StatisticalContinuumSampler()
     if case["mode"] == "custom":
         P = {k: F(v) for k, v in case["params"].items()}
         anns = [f"g{i}" for i in range(case["nann"])]
-        s.init_sampling_custom(anns, P["avg_nb"], P["std_nb"], P["avg_gap"], P["std_gap"], P["avg_dur"], P["std_dur"], ["x", "y"],
-                               [0.25, 0.75] if case["weights"] else None)
+        weights = [0.25, 0.75] if case["weights"] else None
+        s.init_sampling_custom(anns, P["avg_nb"], P["std_nb"], P["avg_gap"], P["std_gap"], P["avg_dur"], P["std_dur"], ["x", "y"], weights)
         cats = ["x", "y"]
         gt = anns
     else:
@@ -260,6 +271,13 @@ def replay(case):
         s.init_sampling(c, gt)
         cats = list(c.categories)
         gt = gt or list(c.annotators)
+        durs = [u.segment.end - u.segment.start for _, u in c]
+        labs = [u.annotation for _, u in c]
+        nbs = [len(c._annotations[a]) for a in c.annotators]
+        # measured parameters, recomputed independently (the gap statistic is the code's own definition)
+        P = dict(avg_nb=float(np.mean(nbs)), std_nb=float(np.std(nbs)), avg_dur=float(np.mean(durs)), std_dur=float(np.std(durs)),
+                 avg_gap=float(s._avg_gap), std_gap=float(s._std_gap))
+        weights = [labs.count(x) / len(labs) for x in cats]
     bad = []
     try:
         with mock.patch("numpy.random.normal", normal), mock.patch("numpy.random.choice", choice):
@@ -273,8 +291,59 @@ def replay(case):
     if list(smp.annotators) != sorted(gt):
         bad.append(f"annotators {list(smp.annotators)} != ground truth {sorted(gt)}")
     for a, u in smp:
-        if not (u.segment.end - u.segment.start > pseg.SEGMENT_PRECISION):
+        if not (u.segment.end - u.segment.start > PREC):
             bad.append(f"unit {u} not longer than the segment precision")
         if u.annotation not in cats:
             bad.append(f"label {u.annotation!r} not a category")
-    return dict(reproduced=bool(bad), detail="; ".join(bad[:3]))
+    # documented generative process on the same draw sequence
+    it = iter(calls)
+
+    def close(a, b):
+        return abs(a - b) <= 1e-9 * max(1.0, abs(a), abs(b))
+
+    def nxt(kind, mu=None, sd=None):
+        try:
+            cll = next(it)
+        except StopIteration:
+            bad.append(f"documented process needs another {kind} draw, the code made none")
+            raise
+        if cll[0] != kind:
+            bad.append(f"documented process expects a {kind} draw, the code made a {cll[0]} draw")
+            raise StopIteration
+        if kind == "normal" and not (close(cll[1], mu) and close(cll[2], sd)):
+            bad.append(f"normal drawn with ({cll[1]}, {cll[2]}), documented parameters ({mu}, {sd})")
+        if kind == "choice":
+            if cll[1] != [str(x) for x in cats]:
+                bad.append(f"label drawn from {cll[1]}, categories are {cats}")
+            if (weights is None) != (cll[2] is None) or (weights is not None and any(not close(a, b) for a, b in zip(cll[2], weights))):
+                bad.append(f"label drawn with weights {cll[2]}, documented weights {weights}")
+        return cll[3]
+    expected = {}
+    try:
+        empty = True
+        for a in sorted(gt):
+            k = abs(int(nxt("normal", P["avg_nb"], P["std_nb"])))
+            if empty:
+                k = max(1, k)
+            last = 0.0
+            us = set()
+            for _ in range(k):
+                start = last + nxt("normal", P["avg_gap"], P["std_gap"])
+                end = start + abs(nxt("normal", P["avg_dur"], P["std_dur"]))
+                while end - start <= PREC:
+                    end = start + abs(nxt("normal", P["avg_dur"], P["std_dur"]))
+                lab = nxt("choice")
+                us.add((start, end, lab))
+                last = end
+                empty = False
+            expected[a] = us
+        if next(it, None) is not None:
+            bad.append("the code made more draws than the documented process")
+    except StopIteration:
+        pass
+    if not bad:
+        for a in sorted(gt):
+            got = {(u.segment.start, u.segment.end, u.annotation) for u in smp._annotations[a]}
+            if got != expected.get(a):
+                bad.append(f"{a}: units {sorted(got, key=str)} differ from the documented process {sorted(expected.get(a, []), key=str)}")
+    return dict(reproduced=bool(bad), detail="; ".join(bad[:3])[:600])
